@@ -10,6 +10,7 @@ use serde_json::{json, Value};
 use std::cell::Cell;
 use std::os::unix::process::ExitStatusExt;
 use std::process::Command;
+use std::sync::atomic::{AtomicU64, Ordering};
 use std::time::Instant;
 
 thread_local! {
@@ -19,13 +20,52 @@ thread_local! {
 
 static mut CRASH_PATH: *const libc::c_char = std::ptr::null();
 
+/// pseudo signal number for "the run did not terminate"
+pub const SIG_HANG: i32 = 1000;
+/// a single run (one trace, all its enumerated cases) may take this long before it counts as a hang
+pub const HANG_LIMIT_MS: u64 = 60_000;
+
+const NSLOT: usize = 64;
+#[allow(clippy::declare_interior_mutable_const)]
+const A0: AtomicU64 = AtomicU64::new(u64::MAX);
+static SLOT_RUN: [AtomicU64; NSLOT] = [A0; NSLOT];
+static SLOT_SINCE: [AtomicU64; NSLOT] = [A0; NSLOT];
+#[allow(clippy::declare_interior_mutable_const)]
+const A4: [AtomicU64; 4] = [A0; 4];
+static SLOT_CTX: [[AtomicU64; 4]; NSLOT] = [A4; NSLOT];
+static NEXT_SLOT: AtomicU64 = AtomicU64::new(0);
+thread_local! {
+    static MY_SLOT: Cell<usize> = const { Cell::new(usize::MAX) };
+}
+
+fn now_ms() -> u64 {
+    static T0: std::sync::OnceLock<Instant> = std::sync::OnceLock::new();
+    T0.get_or_init(Instant::now).elapsed().as_millis() as u64
+}
+
+fn my_slot() -> usize {
+    MY_SLOT.with(|s| {
+        if s.get() == usize::MAX {
+            s.set(NEXT_SLOT.fetch_add(1, Ordering::SeqCst) as usize % NSLOT);
+        }
+        s.get()
+    })
+}
+
 #[inline]
 pub fn set_run(run: u64) {
     CUR_RUN.with(|c| c.set(run));
+    let k = my_slot();
+    SLOT_SINCE[k].store(now_ms(), Ordering::Relaxed);
+    SLOT_RUN[k].store(run, Ordering::SeqCst);
 }
 /// which enumerated case / injected fault is in flight (scenario-specific meaning)
 #[inline]
 pub fn set_ctx(ctx: [u64; 4]) {
+    let k = my_slot();
+    for i in 0..4 {
+        SLOT_CTX[k][i].store(ctx[i], Ordering::Relaxed);
+    }
     CUR_CTX.with(|c| c.set(ctx));
 }
 
@@ -102,6 +142,50 @@ pub fn install_crash_handler() {
     }
 }
 
+/// Child side: a thread that turns a run which does not terminate into a crash record
+/// (pseudo signal SIG_HANG) and ends the process, so that the parent can attribute, minimise and
+/// report it like any other crash. Liveness by a deadline on *one run*, far above any legitimate
+/// run (milliseconds), not on the batch.
+pub fn start_watchdog() {
+    if cfg!(miri) {
+        return;
+    }
+    std::thread::spawn(|| loop {
+        std::thread::sleep(std::time::Duration::from_millis(500));
+        let now = now_ms();
+        for k in 0..NSLOT {
+            let run = SLOT_RUN[k].load(Ordering::SeqCst);
+            if run == u64::MAX {
+                continue;
+            }
+            let since = SLOT_SINCE[k].load(Ordering::Relaxed);
+            if since != u64::MAX && now.saturating_sub(since) > HANG_LIMIT_MS {
+                let mut buf = [0u8; 160];
+                let mut pos = 0;
+                put_num(&mut buf, &mut pos, SIG_HANG as u64);
+                put_num(&mut buf, &mut pos, run);
+                for i in 0..4 {
+                    put_num(&mut buf, &mut pos, SLOT_CTX[k][i].load(Ordering::Relaxed));
+                }
+                if pos < buf.len() {
+                    buf[pos] = b'\n';
+                    pos += 1;
+                }
+                unsafe {
+                    if !CRASH_PATH.is_null() {
+                        let fd = libc::open(CRASH_PATH, libc::O_WRONLY | libc::O_CREAT | libc::O_APPEND, 0o644);
+                        if fd >= 0 {
+                            libc::write(fd, buf.as_ptr() as *const _, pos);
+                            libc::close(fd);
+                        }
+                    }
+                    libc::_exit(70);
+                }
+            }
+        }
+    });
+}
+
 pub enum ChildEnd {
     Exit(i32),
     Crash { signal: i32, run: u64, ctx: [u64; 4] },
@@ -115,12 +199,18 @@ fn signame(s: i32) -> &'static str {
         libc::SIGILL => "SIGILL",
         libc::SIGFPE => "SIGFPE",
         libc::SIGKILL => "SIGKILL",
+        SIG_HANG => "HANG (run did not terminate)",
         _ => "signal",
     }
 }
 
 /// Run this binary again as a child with `args`; classify how it ended.
 pub fn spawn_child(args: &[String], crash_file: &str, quiet: bool) -> ChildEnd {
+    spawn_child_limited(args, crash_file, quiet, None)
+}
+
+/// `limit`: kill the child after this long and report it as a hang.
+pub fn spawn_child_limited(args: &[String], crash_file: &str, quiet: bool, limit: Option<std::time::Duration>) -> ChildEnd {
     let _ = std::fs::remove_file(crash_file);
     let exe = std::env::current_exe().unwrap_or_else(|e| {
         eprintln!("harness error: current_exe: {e}");
@@ -131,10 +221,31 @@ pub fn spawn_child(args: &[String], crash_file: &str, quiet: bool) -> ChildEnd {
     if quiet {
         cmd.stdout(std::process::Stdio::null()).stderr(std::process::Stdio::null());
     }
-    let st = cmd.status().unwrap_or_else(|e| {
+    let mut ch = cmd.spawn().unwrap_or_else(|e| {
         eprintln!("harness error: cannot spawn child: {e}");
         std::process::exit(2)
     });
+    let t0 = Instant::now();
+    let st = loop {
+        match ch.try_wait() {
+            Ok(Some(st)) => break st,
+            Ok(None) => {
+                if let Some(l) = limit {
+                    if t0.elapsed() > l {
+                        let _ = ch.kill();
+                        let _ = ch.wait();
+                        let _ = std::fs::remove_file(crash_file);
+                        return ChildEnd::Crash { signal: SIG_HANG, run: 0, ctx: [0; 4] };
+                    }
+                }
+                std::thread::sleep(std::time::Duration::from_millis(if limit.is_some() { 2 } else { 20 }));
+            }
+            Err(e) => {
+                eprintln!("harness error: waiting for child: {e}");
+                std::process::exit(2)
+            }
+        }
+    };
     let rec = std::fs::read_to_string(crash_file).ok();
     let _ = std::fs::remove_file(crash_file);
     let parse = |rec: Option<String>| -> (i32, u64, [u64; 4]) {
@@ -167,10 +278,11 @@ pub fn spawn_child(args: &[String], crash_file: &str, quiet: bool) -> ChildEnd {
 
 fn crashes<S: Scenario>(t: &S::Trace, tmp: &str, crash_file: &str) -> Option<i32> {
     std::fs::write(tmp, serde_json::to_string(t).unwrap()).ok()?;
-    match spawn_child(
+    match spawn_child_limited(
         &["exec-trace".to_string(), S::ID.to_string(), tmp.to_string()],
         crash_file,
         true,
+        Some(std::time::Duration::from_millis(HANG_LIMIT_MS / 4)),
     ) {
         ChildEnd::Crash { signal, .. } => Some(signal),
         ChildEnd::Exit(_) => None,
@@ -233,13 +345,21 @@ pub fn handle_crash<S: Scenario>(cfg: &RunCfg, signal: i32, run: u64, ctx: [u64;
     }
     let _ = std::fs::remove_file(&tmp);
     let path = format!("{}/{}-{}-{}.json", cfg.replay_dir, S::ID, cfg.seed, run);
-    let detail = format!(
-        "the process died with {} while executing this trace: the code under test touched memory outside the buffer it was given (guard page) or aborted",
-        signame(sig)
-    );
+    let detail = if sig == SIG_HANG {
+        format!(
+            "executing this trace did not terminate within {} s: the code under test loops",
+            HANG_LIMIT_MS / 4000
+        )
+    } else {
+        format!(
+            "the process died with {} while executing this trace: the code under test touched memory outside the buffer it was given (guard page) or aborted",
+            signame(sig)
+        )
+    };
+    let clause = if sig == SIG_HANG { "does-not-terminate" } else { "memory-fault" };
     let doc = json!({
         "property": S::ID,
-        "clause": "memory-fault",
+        "clause": clause,
         "detail": detail,
         "key": format!("{} {}", S::ID, signame(sig)),
         "seed": cfg.seed,
@@ -264,7 +384,7 @@ pub fn handle_crash<S: Scenario>(cfg: &RunCfg, signal: i32, run: u64, ctx: [u64;
         eprintln!("harness error: minimised crash trace in {path} does not reproduce");
         return 2;
     }
-    println!("minimised in {steps} child executions: clause=memory-fault detail={detail}");
+    println!("minimised in {steps} child executions: clause={clause} detail={detail}");
     println!("VIOLATION property={} replay={}", S::ID, path);
     if let Some(p) = &cfg.evidence {
         let ev = json!({
